@@ -69,6 +69,9 @@ func AddTimer(d time.Duration, desc string, fire func()) TimerHandle {
 		d = 0
 	}
 	s.clock.seq++
+	if len(s.timerLog) < 2000 {
+		s.timerLog = append(s.timerLog, TimerReq{Task: CurrentID(), D: d, Desc: desc, At: s.clock.now})
+	}
 	e := &timerEv{at: s.clock.now + d, seq: s.clock.seq, fire: fire, desc: desc}
 	heap.Push(&s.clock.q, e)
 	return TimerHandle{e}
